@@ -1,10 +1,202 @@
 import Driver.Common
-/-! C03 driver (stub: answers bad-op until the property's model is wired in). -/
-open Driver
+import Sourmash.Model.SetOps
+import Sourmash.Spec.SetOps
+/-! C03 driver.  `<model>` column: the code-shaped two-pointer model (`Model/SetOps.lean`).
+`<spec>` column: the answer computed from plain list set-operations (`Spec/SetOps.lean`) on the
+*multisets of hashes that were inserted* into each register — for scaled sketches (and for num
+sketches merged at equal `num`) the spec state of a register is the whole insertion history, so
+`merge` is checked against "sketch of the concatenation".  -/
+open Driver SetOps SetSpec
 
-def stepC03 (s : Unit) (ws : List String) : Unit × Resp :=
+/-- spec-side register: parameters and the multiset of (hash, abundance) insertions it stands for -/
+structure SReg where
+  num : Nat
+  maxHash : Nat
+  ksize : Nat
+  seed : Nat
+  mol : String
+  track : Bool
+  src : List (Nat × Nat)
+
+def SReg.content (r : SReg) : List (Nat × Nat) := sketchPairs r.num r.maxHash r.src
+def SReg.keys (r : SReg) : List Nat := r.content.map Prod.fst
+
+structure St where
+  kind : Kind := .vec
+  nospec : Bool := false
+  regs : List (Nat × Sk) := []
+  sregs : List (Nat × SReg) := []
+
+def getR {α : Type} (l : List (Nat × α)) (i : Nat) : Option α := (l.find? (·.1 == i)).map (·.2)
+def setR {α : Type} (l : List (Nat × α)) (i : Nat) (v : α) : List (Nat × α) :=
+  (i, v) :: l.filter (·.1 != i)
+
+def parseMol (s : String) : Mol :=
+  if s == "protein" then .protein else if s == "dayhoff" then .dayhoff else if s == "hp" then .hp else .dna
+
+def parsePairs (s : String) : List (Nat × Nat) :=
+  if s == "-" || s == "" then [] else
+  (s.splitOn ",").filterMap (fun w => match w.splitOn ":" with
+    | [h, a] => some (h.toNat!, a.toNat!)
+    | [h] => some (h.toNat!, 1)
+    | _ => none)
+
+def showErr : Err → String
+  | .MismatchKSizes => "err MismatchKSizes"
+  | .MismatchDNAProt => "err MismatchDNAProt"
+  | .MismatchScaled => "err MismatchScaled"
+  | .MismatchSeed => "err MismatchSeed"
+  | .NeedsAbundanceTracking => "err NeedsAbundanceTracking"
+  | .CannotUpsampleScaled => "err CannotUpsampleScaled"
+
+def showObs (mins : List Nat) (ab : Option (List Nat)) : String :=
+  "mins=" ++ showNats mins ++ " abunds=" ++ (match ab with | some l => showNats l | none => "none")
+
+def SetOps.Sk.obs (s : Sk) : String := showObs s.mins s.abunds
+def SReg.obs (r : SReg) : String :=
+  let c := r.content
+  showObs (c.map Prod.fst) (if r.track then some (c.map Prod.snd) else none)
+
+/-- the property's reading of `check_compatible` -/
+def specCompat (a b : SReg) : Option String :=
+  if a.ksize != b.ksize then some "err MismatchKSizes"
+  else if a.mol != b.mol then some "err MismatchDNAProt"
+  else if a.maxHash != b.maxHash then some "err MismatchScaled"
+  else if a.seed != b.seed then some "err MismatchSeed"
+  else none
+
+def lookP (ps : List (Nat × Nat)) (h : Nat) : Nat :=
+  match ps.find? (·.1 == h) with | some p => p.2 | none => 0
+
+def resp (st : St) (m s : String) : Resp := { model := m, spec := if st.nospec then "-" else s }
+
+def binop (st : St) (op : String) (r1 r2 : Nat) : St × Resp :=
+  match getR st.regs r1, getR st.regs r2, getR st.sregs r1, getR st.sregs r2 with
+  | some a, some b, some sa, some sb =>
+    if op == "merge" then
+      let (st', m) := match a.merge st.kind b with
+        | .ok a' => ({ st with regs := setR st.regs r1 a' }, a'.obs)
+        | .error e => (st, showErr e)
+      match specCompat sa sb with
+      | some e => (st', resp st m e)
+      | none =>
+        let src := if sa.num == 0 || sb.num == sa.num then sa.src ++ sb.src else sa.content ++ sb.content
+        let sa' := { sa with src := src, track := sa.track && sb.track }
+        ({ st' with sregs := setR st'.sregs r1 sa' }, resp st m sa'.obs)
+    else if op == "addfrom" then
+      let a' := a.addFrom st.kind b
+      let sa' := { sa with src := sa.src ++ sb.keys.map (fun h => (h, 1)) }
+      ({ st with regs := setR st.regs r1 a', sregs := setR st.sregs r1 sa' }, resp st a'.obs sa'.obs)
+    else if op == "rmfrom" then
+      let a' := a.removeFrom b
+      let ks := sb.keys
+      let base := if sa.num == 0 then sa.src else sa.content
+      let sa' := { sa with src := base.filter (fun p => !ks.contains p.1) }
+      ({ st with regs := setR st.regs r1 a', sregs := setR st.sregs r1 sa' }, resp st a'.obs sa'.obs)
+    else if op == "isect" || op == "isize" then
+      let m := if op == "isect" then
+          match intersection st.kind a b with
+          | .ok (c, u) => "common=" ++ showNats c ++ " union=" ++ toString u
+          | .error e => showErr e
+        else
+          match intersectionSize st.kind a b with
+          | .ok (c, u) => "common=" ++ toString c ++ " union=" ++ toString u
+          | .error e => showErr e
+      let s := match specCompat sa sb with
+        | some e => e
+        | none =>
+          let ka := sa.keys
+          let kb := sb.keys
+          let (c, u) :=
+            if sa.num == 0 then (inter ka kb, unionSize ka kb)
+            else
+              -- num sketches: the estimate is taken inside the bottom-`num` of the union
+              let comb := (union ka kb).take sa.num
+              (inter (inter ka kb) comb, comb.length)
+          if op == "isect" then "common=" ++ showNats c ++ " union=" ++ toString u
+          else "common=" ++ toString c.length ++ " union=" ++ toString u
+      (st, resp st m s)
+    else if op == "inflate" then
+      let (st', m) := match a.inflate b with
+        | .ok a' => ({ st with regs := setR st.regs r1 a' }, a'.obs)
+        | .error e => (st, showErr e)
+      match specCompat sa sb with
+      | some e => (st', resp st m e)
+      | none =>
+        if !sb.track then (st', resp st m "err NeedsAbundanceTracking") else
+        let cb := sb.content
+        let sa' := { sa with src := (inter sa.keys sb.keys).map (fun h => (h, lookP cb h)), track := true }
+        ({ st' with sregs := setR st'.sregs r1 sa' }, resp st m sa'.obs)
+    else if op == "infab" then
+      let m := match a.inflatedAbundances b with
+        | .ok (l, t) => "abunds=" ++ showNats l ++ " total=" ++ toString t
+        | .error e => showErr e
+      let s := match specCompat sa sb with
+        | some e => e
+        | none =>
+          if !sb.track then "err NeedsAbundanceTracking" else
+          let cb := sb.content
+          let l := (inter sa.keys sb.keys).map (lookP cb)
+          "abunds=" ++ showNats l ++ " total=" ++ toString (l.foldl (· + ·) 0)
+      (st, resp st m s)
+    else (st, { model := "bad-op" })
+  | _, _, _, _ => (st, { model := "bad-reg" })
+
+def stepC03 (st : St) (ws : List String) : St × Resp :=
   match ws with
-  | "case" :: _ => (s, { model := "ok" })
-  | _ => (s, { model := "bad-op" })
+  | "case" :: _ :: ty :: rest =>
+    ({ kind := if ty == "tree" then .tree else .vec, nospec := rest.contains "nospec" }, { model := "ok" })
+  | ["new", r, scaled, num, ksize, mol, seed, track] =>
+    let r := r.toNat!
+    let tr := track == "1"
+    let sk := Sk.new scaled.toNat! ksize.toNat! (parseMol mol) seed.toNat! tr num.toNat!
+    let sr : SReg := { num := num.toNat!, maxHash := Scaled.maxHashForScaled scaled.toNat!, ksize := ksize.toNat!,
+                       seed := seed.toNat!, mol := mol, track := tr, src := [] }
+    ({ st with regs := setR st.regs r sk, sregs := setR st.sregs r sr }, { model := "ok" })
+  | ["copy", r1, r2] =>
+    match getR st.regs r2.toNat!, getR st.sregs r2.toNat! with
+    | some a, some sa => ({ st with regs := setR st.regs r1.toNat! a, sregs := setR st.sregs r1.toNat! sa }, { model := "ok" })
+    | _, _ => (st, { model := "bad-reg" })
+  | ["obs", r] =>
+    match getR st.regs r.toNat!, getR st.sregs r.toNat! with
+    | some a, some sa => (st, resp st a.obs sa.obs)
+    | _, _ => (st, { model := "bad-reg" })
+  | [op, r, items] =>
+    if !(op == "add" || op == "addm" || op == "rmmany") then binop st op r.toNat! items.toNat! else
+    let r := r.toNat!
+    match getR st.regs r, getR st.sregs r with
+    | some a, some sa =>
+      if op == "add" then
+        let ps := parsePairs items
+        let a' := a.addManyAb st.kind ps
+        let sa' := { sa with src := sa.src ++ ps }
+        ({ st with regs := setR st.regs r a', sregs := setR st.sregs r sa' }, resp st a'.obs sa'.obs)
+      else if op == "addm" then
+        let hs := natList items
+        let a' := a.addMany st.kind hs
+        let sa' := { sa with src := sa.src ++ hs.map (fun h => (h, 1)) }
+        ({ st with regs := setR st.regs r a', sregs := setR st.sregs r sa' }, resp st a'.obs sa'.obs)
+      else if op == "rmmany" then
+        let hs := natList items
+        let a' := a.removeMany hs
+        let base := if sa.num == 0 then sa.src else sa.content
+        let sa' := { sa with src := base.filter (fun p => !hs.contains p.1) }
+        ({ st with regs := setR st.regs r a', sregs := setR st.sregs r sa' }, resp st a'.obs sa'.obs)
+      else (st, { model := "bad-op" })
+    | _, _ => (st, { model := "bad-reg" })
+  | ["cc", r1, r2, d] =>
+    match getR st.regs r1.toNat!, getR st.regs r2.toNat!, getR st.sregs r1.toNat!, getR st.sregs r2.toNat! with
+    | some a, some b, some sa, some sb =>
+      let m := match countCommon st.kind a b (d == "1") with
+        | .ok c => "common=" ++ toString c
+        | .error e => showErr e
+      -- C03 only speaks about the call without downsampling (C04 covers downsample = true)
+      let s := if d == "1" && a.scaled != b.scaled then "-" else
+        match specCompat sa sb with
+        | some e => e
+        | none => "common=" ++ toString (inter sa.keys sb.keys).length
+      (st, resp st m s)
+    | _, _, _, _ => (st, { model := "bad-reg" })
+  | _ => (st, { model := "bad-op" })
 
-def main : IO Unit := Driver.run () stepC03
+def main : IO Unit := Driver.run ({} : St) stepC03
